@@ -307,7 +307,7 @@ def _fut_cancel(eng, st, self_v, args, kwargs, node):
     ok = z3.Bool(fresh_name("cancelled"))
     running = z3.Select(st.ghost_get("fut_running"), self_v.t)
     done = z3.Select(st.ghost_get("fut_n_exc"), self_v.t) + z3.Select(st.ghost_get("fut_n_res"), self_v.t) >= 1
-    st.assume(z3.Implies(z3.Or(running, done), z3.Not(ok)))
+    st.assume(ok == z3.Not(z3.Or(running, done)))      # exactly: True iff the future was still pending (or already cancelled)
     out = []
     for b, s in eng.branch(st, ok):
         s.emit("fut_cancel", [self_v, VBool(b)], eng.site(node))
@@ -570,7 +570,7 @@ c = S.ext("threading.Thread.start", cite="Thread.start(): starts the thread; Run
 c.param("self", T.Ref("threading.Thread")).event("thread_start", "self").modifies()
 c.may_raise.append(("RuntimeError", None))
 c = S.ext("threading._register_atexit", cite="threading._register_atexit(func): func runs before the interpreter joins its non-daemon threads")
-c.param("func", T.Obj).returns(T.Obj).event("register_atexit", "func").ensures("a-handle", "result is not None").modifies()
+c.param("func", T.Obj).returns(T.Obj).event("register_atexit", "func").ensures("returns-nothing", "result is None").modifies()   # (it appends to a list: no handle)
 
 
 @_impl("threading.Thread.join", cite="Thread.join(): blocks until the thread ends")
